@@ -2,6 +2,7 @@
 canonicalisation and generators.  Shapes / calls are S-expression trees, see lean/TTV/Drv/Res.lean:
 
 shape : [sink f] f in py26/py27/twisted/ext | [tt B] | [text B] | [tbt] | [etod s] | [deco s] | [tagger new gone s]
+        | [sff] (ExtendedToStreamDecorator(StreamFailFast(callback)): the stream target is itself a StreamFailFast, its callback is counted)
         | [fsink late B f] (f in py26/twisted: a recording result of that flavour with the instance attribute failfast = B, assigned at once (late false) or after the whole graph is built (late true))
         | [tfr [etod s]] | [multi [etod s] ...] | [e2s [etod s]]
         (the etod below tfr/multi/e2s is the ExtendedToOriginalDecorator those classes create themselves)
@@ -23,8 +24,12 @@ class HarnessError(Exception):
     pass
 
 
+#: falsy but legal values in the alphabets: tag 3 is the empty string, test 7 has the empty id
+EMPTY_TAG, EMPTY_ID = 3, 7
+
+
 def tagname(i):
-    return 'tag%02d' % i
+    return '' if i == EMPTY_TAG else 'tag%02d' % i
 
 
 #: every tag collection the code under test handed to the harness during the current run (a sink argument, a returned
@@ -33,7 +38,7 @@ RETAINED = []
 
 
 def tagnums(s):
-    r = sorted(int(x[3:]) for x in s)
+    r = sorted(int(x[3:]) if x else EMPTY_TAG for x in s)
     if isinstance(s, (set, frozenset, list)) and len(RETAINED) < 4000:
         RETAINED.append((s, r))
     return r
@@ -41,7 +46,7 @@ def tagnums(s):
 
 def retained_changed():
     """True when a tag collection delivered earlier in this run has changed since it was delivered"""
-    return any(sorted(int(x[3:]) for x in s) != r for s, r in RETAINED)
+    return any(sorted(int(x[3:]) if x else EMPTY_TAG for x in s) != r for s, r in RETAINED)
 
 
 def scribble_on_retained():
@@ -101,7 +106,7 @@ def K():
         return 'not-an-exc-info'
 
     def tnum(test):
-        return int(test.id()[1:])
+        return int(test.id()[1:]) if test.id() else EMPTY_ID
 
     class Sink:
         """recording result; `_log` holds canonical [call, current tags] pairs"""
@@ -359,6 +364,10 @@ def K():
 
     def make_test(n):
         name = 't%04d' % n
+        if n == EMPTY_ID:
+            t = TC('test')
+            t.id = lambda: ''
+            return t
         if n % 2 == 0:
             t = TC('test')
             t.id = lambda: name
@@ -402,7 +411,7 @@ def K():
 
         def status(self, test_id=None, test_status=None, test_tags=None, **kw):
             if test_status not in (None, 'inprogress'):
-                self._sent.append([int(test_id[1:]), tagnums(test_tags or ())])
+                self._sent.append([int(test_id[1:]) if test_id else EMPTY_ID, tagnums(test_tags or ())])
 
     _K.update(dict(StreamRecorder=StreamRecorder, Py26=Py26, Py27=Py27, Twisted=Twisted, Ext=Ext, RecTT=RecTT, RecText=RecText, RecTBT=RecTBT,
                    make_test=make_test, make_details=make_details, canon_time=canon_time, testtools=testtools, real=real))
@@ -433,6 +442,7 @@ class Graph:
         self.points = []         # observation points, pre-order: leaves and the recorder of every e2s node
         self.nodes = []          # (path, object) of every node
         self.pending = []        # (object, value): failfast attributes to assign once everything is built
+        self.cbs = []            # one-element counters: calls of the callback of every StreamFailFast used as stream target (pre-order)
         self.root = self.build(shape, ())
         for o, b in self.pending:
             o.failfast = b
@@ -480,6 +490,13 @@ class Graph:
             o = real.ThreadsafeForwardingResult(self.target(s[1], path + (0,)), threading.Semaphore(1))
         elif kind == 'multi':
             o = real.MultiTestResult(*[self.target(c, path + (i,)) for i, c in enumerate(s[1:])])
+        elif kind == 'sff':
+            counter = [0]
+            self.cbs.append(counter)
+
+            def on_error(counter=counter):
+                counter[0] += 1
+            o = real.ExtendedToStreamDecorator(real.StreamFailFast(on_error))
         elif kind == 'e2s':
             rec = k['StreamRecorder']()
             self.points.append(rec)
@@ -552,7 +569,7 @@ def can_done(s):
     return s[0] in ('tt', 'text', 'tbt', 'etod', 'tfr', 'multi')
 
 
-NODE_KINDS = ('sink', 'tt', 'text', 'tbt', 'etod', 'deco', 'tagger', 'tfr', 'multi', 'e2s', 'fsink')
+NODE_KINDS = ('sink', 'tt', 'text', 'tbt', 'etod', 'deco', 'tagger', 'tfr', 'multi', 'e2s', 'fsink', 'sff')
 
 
 def kinds_in(s, acc=None):
@@ -584,7 +601,7 @@ def wf_shape(s, under_etod=False):
     k = s[0]
     if k == 'sink':
         return under_etod or s[1] == 'ext'
-    if k in ('tt', 'text', 'tbt'):
+    if k in ('tt', 'text', 'tbt', 'sff'):
         return True
     if k == 'etod':
         return wf_shape(s[1], True)
